@@ -360,7 +360,7 @@ func (m *Membership) MyMemberId() primitives.MemberId { return m.n.id }
 func (m *Membership) RequestOrderedCommittee(ctx context.Context, blockHeight primitives.BlockHeight, randomSeed uint64, prevBlockReferenceTime primitives.TimestampSeconds) ([]interfaces.CommitteeMember, error) {
 	n := m.n
 	n.obs.committeeCalls++
-	if n.gateEnter(ctx, "committee", uint64(blockHeight)) == GateFail {
+	if n.gateEnter(ctx, "committee", uint64(blockHeight)) == GateFail && !n.retryWouldCollide() {
 		n.w.stats.Fault("spi-error-committee")
 		// the library retries after a fixed real-time pause: tell the scheduler that this node has a timed wake-up
 		n.w.syncClock()
@@ -628,4 +628,37 @@ func (s *StorageDeco) GetAllMessagesFromView(h primitives.BlockHeight, v primiti
 func (s *StorageDeco) ClearBlockHeightLogs(h primitives.BlockHeight) {
 	s.inner.ClearBlockHeightLogs(h)
 	s.n.w.ev("storage-clear n%d h%d", s.n.idx, h)
+}
+
+// retryWouldCollide: the library pauses a fixed 200 ms after a failed committee lookup. Two nodes whose pauses end at
+// the same fake instant would be woken together, in an order the harness does not control; such a failure is not
+// injected (the lookup succeeds instead).
+func (n *Node) retryWouldCollide() bool {
+	n.w.syncClock()
+	at := n.w.now + 200*time.Millisecond
+	for _, o := range n.w.nodes {
+		if o == n || o.wakeAt == 0 {
+			continue
+		}
+		d := o.wakeAt - at
+		if d < 0 {
+			d = -d
+		}
+		if d < time.Millisecond {
+			n.w.probe("committee-failure-not-injected-(collision)")
+			return true
+		}
+	}
+	for _, o := range n.w.nodes {
+		if o != n && o.realTrig != nil && o.realTrig.armed {
+			d := o.realTrig.expiry - at
+			if d < 0 {
+				d = -d
+			}
+			if d < time.Millisecond {
+				return true
+			}
+		}
+	}
+	return false
 }
